@@ -5955,7 +5955,13 @@ int32 psX509AuthenticateCert(psPool_t *pool, psX509Cert_t *subjectCert,
     }
     else
     {
-        issuerCert->authStatus = PS_FALSE;
+        /* The issuer may be a CA certificate of a key set shared by
+           sessions running in other threads: do not write to it unless
+           there is something to reset. */
+        if (issuerCert->authStatus != PS_FALSE)
+        {
+            issuerCert->authStatus = PS_FALSE;
+        }
         ic = issuerCert; /* Easy case of single subject and single issuer */
         sc = subjectCert;
     }
